@@ -27,7 +27,8 @@ BodyClass(b) == CASE b \in {"", "*", "b", "n"} -> "accept"      \* none, whole m
                   [] b \in {"zz", "s.x", "b.zz", "mp.value", "mp.key", "rn.s", "r.x"} -> "reject"
                   [] OTHER -> "unspecified"                       \* scalar / repeated / map as body
 RespClass(r) == CASE r \in {"", "sub", "echo", "echo.n"} -> "accept"
-                  [] r \in {"zz", "id.x", "sub.zz", "echo.mp.value", "echo.rn.s"} -> "reject"
+                  \* ("*" is a body selector; as a response_body it names no field of the reply)
+                  [] r \in {"zz", "id.x", "sub.zz", "echo.mp.value", "echo.rn.s", "*", "echo.*"} -> "reject"
                   [] OTHER -> "unspecified"
 \* the field path of the template variable
 VarClass(v) == CASE v \in {"", "n.s", "b.s", "n.deep.s"} -> "accept"
